@@ -568,7 +568,7 @@ func ruleC15Current(cx *Ctx) {
 	})
 	cx.R.Check(cur != nil, rule, name, "reload", cx.P.where(cas), "the current table is loaded after the flag was won")
 	// the stale parameter is not used once the flag is won (in resize itself or its closures)
-	known := fn.Params[1]
+	known := bparam(fn, 1)
 	bad := ""
 	for _, u := range usesOf(known) {
 		if _, isDbg := u.(*ssa.DebugRef); isDbg {
@@ -719,7 +719,7 @@ func ruleC15KeyCheck(cx *Ctx) {
 		return
 	}
 	name := funcName(fn)
-	key := fn.Params[1]
+	key := bparam(fn, 1)
 	n := 0
 	allInstrs(fn, func(in ssa.Instruction) {
 		ret, ok := in.(*ssa.Return)
@@ -874,7 +874,7 @@ func insertionStore(fn *ssa.Function, a slotAccess) bool {
 		v = c.Call.Value
 	}
 	c, ok := v.(*ssa.Call)
-	if !ok || c.Call.IsInvoke() || c.Call.Value != ssa.Value(fn.Params[2]) {
+	if !ok || c.Call.IsInvoke() || c.Call.Value != ssa.Value(bparam(fn, 2)) {
 		return false
 	}
 	k, isConst := c.Call.Args[0].(*ssa.Const)
